@@ -171,6 +171,39 @@ def len_value(an):
         return None, "len() returns different forms on different paths"
     e = list(vals)[0]
     reps = []
+    # an accumulator loop (`let mut n = c; for x in &self.v { n += f(x) }; n`): the loop-carried value is its value on loop
+    # entry plus, per element of the iterated collection, what one iteration adds
+    guard = 0
+    while guard < 8:
+        guard += 1
+        phis = [s for s in e.syms() if s.startswith("phi(")]
+        if not phis:
+            break
+        name = phis[0]
+        node = var = None
+        for n, (ph, incoming, back) in an.join_info.items():
+            for k, (nm, vs) in ph.items():
+                if nm == name:
+                    node, var = n, k
+        if node is None:
+            return None, "loop-carried len() value without a join"
+        ph, incoming, back = an.join_info[node]
+        nm, vs = ph[var]
+        fwd = [vs[i] for i in range(len(vs)) if not back[i]]
+        bks = [vs[i] for i in range(len(vs)) if back[i]]
+        if len(set(map(repr, fwd))) != 1 or not bks:
+            return None, "accumulator differs on the loop's forward edges"
+        per = set(normalise_elem(v - Lin.sym(nm), an) for v in bks)
+        if len(per) != 1:
+            return None, "iterations of the loop add different amounts"
+        src = loop_source(an, node)
+        if src is None:
+            return None, "cannot identify the collection the accumulator loop iterates"
+        coef = dict(e.t)[name]
+        if coef != 1:
+            return None, "accumulator scaled"
+        reps.append((src, list(per)[0]))
+        e = zone.subst(e, nm, fwd[0])
     for s in list(e.syms()):
         m = re.match(r"^SUM\[(.*)\]\((.*)\)$", s)
         if m:
